@@ -12,6 +12,7 @@ import Tranp.Driver.Entry
 import Tranp.Driver.Span
 import Tranp.Driver.Errors
 import Tranp.Driver.CacheFS
+import Tranp.Driver.Infer
 
 open Tranp.Driver
 
@@ -30,4 +31,5 @@ def main (args : List String) : IO UInt32 := do
   | ["span"] => Span.run; return 0
   | ["errors"] => Errors.run; return 0
   | ["cachefs"] => CacheFS.run; return 0
+  | ["infer"] => Infer.run; return 0
   | _ => IO.eprintln s!"unknown driver family: {args}"; return 2
